@@ -347,6 +347,30 @@ def nutation_truncation_bound(T, table, kept):
     return sum(abs(r[5]) + abs(r[6] * T) for r in table[kept:]) * 1e-4 * ARCSEC
 
 
+def slow_rates(T, table, half_step_s=600.0):
+    """Magnitudes (rad/s) at TT century T of: the angular velocity of the mean-of-date axes w.r.t. J2000 (precession),
+    of the true-of-date axes w.r.t. the mean-of-date ones (nutation), and of the equation of the equinoxes (largest of
+    the 106-term and the 4-term series; kinematic terms are 1e-16 rad/s).  Central differences (relative error ~
+    (half_step x fastest nutation frequency)^2 < 1e-4).  Any frame "of date" of the 1980 chain turns, w.r.t. the
+    inertial frames, at no more than the sum of the three (triangle inequality)."""
+    d = half_step_s / (86400.0 * 36525.0)
+
+    def N(t):
+        return nutation_matrix(*nutation_angles_1980(t, table))
+
+    out = []
+    for M in (precession_iau76, N):
+        W = (M(T + d) - M(T - d)) / (2.0 * half_step_s) @ M(T).T
+        out.append(float(np.linalg.norm(vee(W))))
+
+    def eqe(t, n):
+        eb, dp, _ = nutation_angles_1980(t, table, n)
+        return dp * math.cos(eb)
+
+    out.append(max(abs(eqe(T + d, n) - eqe(T - d, n)) / (2.0 * half_step_s) for n in (4, None)))
+    return tuple(out)
+
+
 # ---------------------------------------------------------------------------
 # polar motion, frame bias
 
@@ -484,6 +508,11 @@ def selftest():
         N = nutation_matrix(eb, dp, de)
         assert np.max(np.abs(N - nutation_matrix_first_order(eb, dp, de))) < 5e-9
         assert orth_error(N) < 1e-15
+        # rate of the of-date axes: general precession 5029.1"/cy = 7.73e-12 rad/s, nutation adds at most ~8e-12
+        for t in (-0.27, -0.075, 0.0, 0.0426236319, 0.165):
+            rp, rn, re = slow_rates(t, tab)
+            assert abs(rp - 5029.0966 * ARCSEC / (36525 * 86400.0)) < 2e-14, rp  # general precession
+            assert rn < 1.2e-11 and re <= rn * 1.0001, (rn, re)  # dpsi' cos(eps) is one component of the nutation rate
         assert nutation_truncation_bound(T, tab, 0) > 17.0 * ARCSEC
         assert nutation_truncation_bound(T, tab, 4) < 0.6 * ARCSEC
 
